@@ -327,8 +327,17 @@ local function _reraise_timeout(...)
     return ...
 end
 
+-- A Python exception raised by a helper arrives in Lua as a live Python
+-- object (with everything it refers to): modules only get its message.
+local function _scrub_error(ok, e, ...)
+    if not ok and _orig_type(e) == "userdata" then
+        e = _orig_tostring(e)
+    end
+    return ok, e, ...
+end
+
 local function _sandbox_pcall(f, ...)
-    return _reraise_timeout(_orig_pcall(f, ...))
+    return _reraise_timeout(_scrub_error(_orig_pcall(f, ...)))
 end
 
 local function _sandbox_xpcall(f, handler)
@@ -339,9 +348,13 @@ local function _sandbox_xpcall(f, handler)
         if _lua_timed_out then
             return ...
         end
+        local e = ...
+        if _orig_type(e) == "userdata" then
+            return handler(_orig_tostring(e))
+        end
         return handler(...)
     end
-    return _reraise_timeout(_orig_xpcall(f, guarded_handler))
+    return _reraise_timeout(_scrub_error(_orig_xpcall(f, guarded_handler)))
 end
 
 -- getmetatable for the sandbox.  All strings of the Lua state share ONE
